@@ -15,6 +15,7 @@
 _Bool nondet_bool(void); int nondet_int(void);
 typedef struct Dep Dep_t;
 /* ghosts of the vertex jobs (declared for every job: loop contracts are spliced into the shared lowered text) */
+unsigned g_dep_resets, g_proc_resets; struct Dep g_dep_obj[1];
 size_t g_n, g_it, g_it_end; unsigned g_ret1, g_env_dec, g_activated_deps, g_pushed; _Bool g_stored, g_cas_won, g_on_activate_fails; long g_dep_err;
 #ifdef VF_LEMMA
 struct Dep g_dep; struct Vertex g_vertex; struct Data *g_target = (struct Data *)0x1000, *g_cond = (struct Data *)0x2000; struct Vertex *g_source = &g_vertex;
@@ -100,8 +101,7 @@ void lemma_dependency_finished_once(void) {
  * Obligations: a second activation does nothing; the counter is set to n before any dependency is activated (so no early
  * decrement is lost); the vertex is put into the runnable set by this call exactly when its own subtraction brings the counter to
  * zero (or it has no dependencies); a failing dependency activation is propagated. */
-struct Dep g_dep_obj[1];
-static void vf_havoc_ghosts(void) { g_n = (size_t)nondet_int(); g_ret1 = g_env_dec = g_activated_deps = g_pushed = 0; g_stored = 0; g_cas_won = 0; g_on_activate_fails = nondet_bool(); g_dep_err = 0; }
+static void vf_havoc_ghosts(void) { g_n = (size_t)nondet_int(); g_ret1 = g_env_dec = g_activated_deps = g_pushed = 0; g_stored = 0; g_cas_won = 0; g_on_activate_fails = nondet_bool(); g_dep_err = 0; g_dep_resets = g_proc_resets = 0; }
 typedef struct gnu_cxx_normal_iterator_L_DepP_std_vector_L_Dep_R_R DIt_t;
 unsigned long std_vector_L_Dep_R_size(struct std_vector_L_Dep_R *v) { return g_n; }
 DIt_t std_vector_L_Dep_R_begin(struct std_vector_L_Dep_R *v) { DIt_t r; r.p = &g_dep_obj[0]; g_it = 0; return r; }
@@ -146,6 +146,39 @@ __CPROVER_ensures((g_cas_won && g_n > 0 && !g_on_activate_fails && g_dep_err == 
 //@loop Vertex_activate 1
 //@  __CPROVER_assigns(@l3:finished@, g_it, g_ret1, g_activated_deps, g_dep_err)
 //@  __CPROVER_loop_invariant(g_it <= g_n && g_it_end == g_n && g_activated_deps == g_it && @l3:finished@ == (long)g_ret1 && g_ret1 <= g_it && g_dep_err == 0 && g_stored && g_env_dec == 0)
+//@  __CPROVER_decreases(g_n - g_it)
+//@end
+/* ---- reset: "after reset() the same graph instance gives the same guarantees again".  The run-time contracts above start from the
+ * state a freshly built vertex / dependency has (the default member initialisers in vertex.h / dependency.h): not activated, counter
+ * 0, no closure, no borrowed runnable stack (it points into the stack frame of a finished run), dependency counter 0 and neither
+ * established nor ready.  reset() must bring exactly that state back, for the vertex and for every one of its dependencies, and
+ * tell the processor once. */
+void vf_atomic_store_bool(_Bool *p, _Bool v, int order, int site) { *p = v; }
+void GraphProcessor_reset__GraphVertexR(struct GraphProcessor *p, struct Vertex *v) { g_proc_resets++; }
+#define DEP_BUILT(d) ((d)->_waiting_num == 0 && !(d)->_established && !(d)->_ready)
+void Dep_reset(struct Dep *d)
+#ifdef VF_ENFORCE_Dep_reset
+__CPROVER_requires(__CPROVER_is_fresh(d, sizeof(*d)))
+__CPROVER_assigns(d->_waiting_num, d->_established, d->_ready, g_stored)
+__CPROVER_ensures(DEP_BUILT(d))
+__CPROVER_ensures(d->_source == __CPROVER_old(d->_source) && d->_target == __CPROVER_old(d->_target) && d->_condition == __CPROVER_old(d->_condition)
+                  && d->_establish_value == __CPROVER_old(d->_establish_value) && d->_mutable == __CPROVER_old(d->_mutable) && d->_essential == __CPROVER_old(d->_essential))   /* the built wiring stays */
+#else
+__CPROVER_requires(d == &g_dep_obj[0])
+__CPROVER_assigns(g_dep_obj[0]._waiting_num, g_dep_obj[0]._established, g_dep_obj[0]._ready, g_stored, g_dep_resets)
+__CPROVER_ensures(DEP_BUILT(d) && g_dep_resets == __CPROVER_old(g_dep_resets) + 1)
+#endif
+;
+void Vertex_reset(struct Vertex *v)
+__CPROVER_requires(__CPROVER_is_fresh(v, sizeof(*v)) && g_n < (1UL << 20) && g_dep_resets == 0 && g_proc_resets == 0)
+__CPROVER_assigns(v->_activated, v->_waiting_num, v->_closure, v->_runnable_vertexes, g_it, g_it_end, g_stored, g_dep_resets, g_proc_resets, g_dep_obj[0]._waiting_num, g_dep_obj[0]._established, g_dep_obj[0]._ready)
+__CPROVER_ensures(!v->_activated && v->_waiting_num == 0 && v->_closure == 0 && v->_runnable_vertexes == 0)
+__CPROVER_ensures(g_dep_resets == g_n && g_proc_resets == 1)
+__CPROVER_ensures(v->_trivial == __CPROVER_old(v->_trivial) && v->_builder == __CPROVER_old(v->_builder) && v->_graph == __CPROVER_old(v->_graph))
+;
+//@loop Vertex_reset 1
+//@  __CPROVER_assigns(g_it, g_stored, g_dep_resets, g_dep_obj[0]._waiting_num, g_dep_obj[0]._established, g_dep_obj[0]._ready)
+//@  __CPROVER_loop_invariant(g_it <= g_n && g_it_end == g_n && g_dep_resets == g_it)
 //@  __CPROVER_decreases(g_n - g_it)
 //@end
 _Bool Vertex_ready(struct Vertex *v, struct Dep *d)
